@@ -178,7 +178,7 @@ func (P *Program) Check(opt CheckOpts) int {
 	var funcsUnder []string
 	assumed := map[string]bool{}
 	var violations []string
-	var knownLines []string
+	knownLines := []string{}
 	replayDir := filepath.Join(opt.VerifDir, "replay", prop)
 	os.RemoveAll(replayDir)
 	covers := 0
@@ -253,7 +253,7 @@ func (P *Program) Check(opt CheckOpts) int {
 	for _, l := range violations {
 		fmt.Println(l)
 	}
-	var assumptions []string
+	assumptions := []string{}
 	for a := range assumed {
 		assumptions = append(assumptions, a)
 	}
